@@ -185,6 +185,24 @@ func (r *rw) collect(n ast.Node, edits *[]edit) {
 			}
 			r.collectList(x.Body, edits)
 			return false
+		case *ast.CallExpr:
+			// sync.Pool: which object Get returns depends on the Go scheduler
+			// (per-P caches) and the garbage collector; the simulator hands
+			// out the most recently Put object instead (maximal reuse).
+			if sel, ok := x.Fun.(*ast.SelectorExpr); ok {
+				if ptr, ok := r.isSync(sel.X, "Pool"); ok {
+					switch {
+					case sel.Sel.Name == "Get" && len(x.Args) == 0:
+						r.count("pool_get")
+						*edits = append(*edits, edit{r.off(x.Pos()), r.off(x.End()), "simrt.PoolGet(" + r.addr(sel.X, ptr) + ")"})
+						return false
+					case sel.Sel.Name == "Put" && len(x.Args) == 1:
+						r.count("pool_put")
+						*edits = append(*edits, edit{r.off(x.Pos()), r.off(x.End()), "simrt.PoolPut(" + r.addr(sel.X, ptr) + ", " + r.text(x.Args[0]) + ")"})
+						return false
+					}
+				}
+			}
 		}
 		return true
 	})
